@@ -128,6 +128,9 @@ func (r *Run) Begin(p map[string]any) {
 	}
 }
 
+// Beat tells the watchdog that the worker is making progress inside one point.
+func (r *Run) Beat() { r.beat.Add(1) }
+
 const curMapSize = 1 << 16
 
 func (r *Run) mapCur(path string) {
@@ -562,6 +565,9 @@ func ParentMain(id, tier string) int {
 				out := filepath.Join(tmp, fmt.Sprintf("%s-%d.json", ph.Name, i))
 				cmd := exec.Command(bin, "shard", id, tier, ph.Name, strconv.Itoa(i), strconv.Itoa(n), out)
 				cmd.Env = append(os.Environ(), "GOMAXPROCS=2", "GOTRACEBACK=single")
+				if ph.Build == "race" {
+					cmd.Env = append(os.Environ(), "GOMAXPROCS=4", "GOTRACEBACK=single", "GORACE=halt_on_error=1 exitcode=66", "VERIF_MEM_GIB=64")
+				}
 				var eb tailBuf
 				cmd.Stderr = &eb
 				cmd.Stdout = &eb
@@ -835,6 +841,8 @@ func classifyCrash(tail string) string {
 		return "out-of-memory"
 	case strings.Contains(tail, "signal: killed"):
 		return "killed"
+	case strings.Contains(tail, "DATA RACE"):
+		return "data-race"
 	case strings.Contains(tail, "fatal error"):
 		return "fatal-error"
 	case strings.Contains(tail, "panic:"):
